@@ -17,6 +17,9 @@ pub const TYPED_ARRAYS: [&str; 11] = [
 ];
 pub const STRING_FORMATS: [&str; 3] = ["lower", "len3", "aprefix"];
 pub const NUMBER_FORMATS: [&str; 2] = ["nonneg", "int"];
+/// registered like the others but only generated where a check asks for it: one name that is both a string format and a
+/// number format (the two are different types)
+pub const SHARED_FORMAT: &str = "code";
 
 #[derive(Debug, Clone, PartialEq, Serialize, Deserialize)]
 pub enum TplPart {
@@ -454,6 +457,10 @@ impl<'c> G<'c> {
                     continue;
                 }
                 props.push(Prop { key, ty: vt.clone(), optional: false });
+            }
+            // now and then the values of a pure record are optional (Partial<Record<string, T>>, { [K in string]?: T })
+            if props.is_empty() && !self.cfg.only_null && !matches!(vt, D::Union(_) | D::Undefined | D::Void | D::Any | D::Never) && s.chance(1, 5) {
+                return D::Object { props, index: Some(Box::new(D::Union(vec![vt, D::Undefined]))) };
             }
             return D::Object { props, index: Some(Box::new(vt)) };
         }
